@@ -3,15 +3,32 @@ C03 — model of how `crates/codegen/src/compiler/functions.rs` compiles `defer`
 (as of the `fix:` commit that gives loops a defer frame and lets jumps run exactly the
 defers registered so far).
 
-* `Stmt` is the source fragment ("DeferLang"): events, `defer`, nested blocks (optionally
-  labelled), loops, `if`, `break`/`return` (`brk`), `continue` (`cont`) and `.try`
-  propagation (`tryS`, a conditional `brk`). Every runtime condition is a *decision* drawn
-  from an oracle, so one semantics covers every path.
+* `Stmt` is the source fragment ("DeferLang"): events, `defer { body }` (the deferred
+  expression is an arbitrary block: events, nested blocks and loops with their own labels,
+  `if`, nested `defer`s, jumps), nested blocks (optionally labelled), loops, `if`,
+  `break`/`return` (`brk`), `continue` (`cont`) and `.try` propagation (`tryS`, a conditional
+  `brk`). Every runtime condition is a *decision* drawn from an oracle, so one semantics
+  covers every path.
 * `compileStmts` mirrors `compile_stmt` / `Expr::Block` / `Expr::While` / `break_to_label` /
-  `run_defers_up_to`: a *static* `defer_stack` of frames `(id?, defers)`; `defer` pushes
-  onto the top frame at compile time; a block emits its frame's defers in its exit block
-  (reached only by running off the end); a jump emits, inline, the defers of every frame
-  from the top down to and including the target's frame and then jumps past the exit code.
+  `run_defers_up_to`: a *static* `defer_stack` of frames `(id?, deferred bodies)`;
+  `Stmt::Defer` pushes the deferred expression onto the top frame at compile time and
+  compiles nothing; the deferred expression is compiled — `compile_expr(defer)` — at EVERY
+  emission site, under the defer stack that is current at that site:
+    - a block pops its frame and then compiles the popped frame's defers (newest first) in
+      its exit block, which is reached only by running off the end (`!no_eval`);
+    - a jump (`run_defers_up_to`) walks the stack from the top down to and including the
+      frame whose id is the target: it compiles the frame's defers (newest first) WHILE THE
+      FRAME IS STILL ON THE STACK, then pops it (the popped frames are pushed back at the
+      end), so the defers of a lower frame are compiled under the stack that ends at that
+      frame.
+  Compiling a deferred block pushes a frame of its own, so a `defer` nested in it registers
+  onto that new frame, and jumps inside it re-enter `run_defers_up_to`.
+* The recursion "compile a body taken from the stack" is not structural (in the real
+  compiler it does not terminate for a deferred body that jumps to a label outside itself:
+  the frame being unwound is still on the stack; HIR rejects such programs). `compileStmt`
+  therefore takes the function `emit` that compiles a deferred body and `compileDeferred n`
+  ties the knot with `n` = the number of nested re-entries allowed; `none` = the compiler
+  panics (`expect`) or overflows its stack.
 * `T` is the shape of the generated control flow; `execT` its obvious semantics.
 -/
 namespace CapyV.Defer
@@ -19,7 +36,8 @@ namespace CapyV.Defer
 mutual
 inductive Stmt where
   | print (c : Nat)
-  | defer (c : Nat)
+  /-- `defer { body }` -/
+  | defer (body : Stmts)
   | block (label : Option Nat) (body : Stmts)
   | loop (label : Nat) (body : Stmts)
   | ifS (body : Stmts)
@@ -34,18 +52,21 @@ end
 deriving instance DecidableEq for Stmt, Stmts
 deriving instance Repr for Stmt, Stmts
 
+/-- the defer of the atomic model: `defer print(c)` -/
+def Stmt.deferP (c : Nat) : Stmt := .defer (.cons (.print c) .nil)
+
 -- target: generated control flow, defers already placed
 mutual
 inductive T where
   | emit (c : Nat)
-  /-- `exitCode`: the defers run in the block's exit block (fall-through only) -/
-  | block (label : Option Nat) (body : Ts) (exitCode : List Nat)
-  | loop (label : Nat) (body : Ts) (exitCode : List Nat)
-  | ifT (body : Ts) (exitCode : List Nat)
-  /-- defers emitted inline, then the jump -/
-  | jump (isCont : Bool) (label : Nat) (code : List Nat)
+  /-- `exitCode`: the defers compiled in the block's exit block (fall-through only) -/
+  | block (label : Option Nat) (body : Ts) (exitCode : Ts)
+  | loop (label : Nat) (body : Ts) (exitCode : Ts)
+  | ifT (body : Ts) (exitCode : Ts)
+  /-- defers compiled inline, then the jump -/
+  | jump (isCont : Bool) (label : Nat) (code : Ts)
   /-- `.try`: on the failing decision, inline defers then break -/
-  | tryT (label : Nat) (code : List Nat)
+  | tryT (label : Nat) (code : Ts)
 inductive Ts where
   | nil
   | cons (t : T) (rest : Ts)
@@ -54,69 +75,129 @@ end
 deriving instance DecidableEq for T, Ts
 deriving instance Repr for T, Ts
 
-/-- one `DeferFrame`: `id` and the defers registered so far, newest first -/
-abbrev Frame := Option Nat × List Nat
+/-- one `DeferFrame`: `id` and the deferred expressions registered so far, newest first -/
+abbrev Frame := Option Nat × List Stmts
 
-/-- `run_defers_up_to(label)`: the defers of every frame from the top down to and including
-the first frame whose id is `label` (all frames if there is none), each frame newest first. -/
-def defersUpTo (l : Nat) : List Frame → List Nat
-  | [] => []
-  | (id, ds) :: rest => if id = some l then ds else ds ++ defersUpTo l rest
-
-/-- `Stmt::Defer`: push onto the top frame (`expect("block didn't add to defer stack")`). -/
-def registerDefer (c : Nat) : List Frame → Option (List Frame)
-  | [] => none
-  | (id, ds) :: rest => some ((id, c :: ds) :: rest)
-
-def topDefers : List Frame → List Nat
-  | [] => []
-  | (_, ds) :: _ => ds
+/-- how `compile_expr(defer)` compiles a deferred body under a defer stack -/
+abbrev Emit := Stmts → List Frame → Option Ts
 
 def Ts.append : Ts → Ts → Ts
   | .nil, b => b
   | .cons t r, b => .cons t (Ts.append r b)
 
+/-- `for defer in frame.defers.iter().rev() { self.compile_expr(*defer) }` under stack `fr` -/
+def emitDefers (emit : Emit) : List Stmts → List Frame → Option Ts
+  | [], _ => some .nil
+  | b :: ds, fr =>
+    match emit b fr with
+    | none => none
+    | some t =>
+      match emitDefers emit ds fr with
+      | none => none
+      | some r => some (Ts.append t r)
+
+/-- `run_defers_up_to(label)`: for every frame from the top down to and including the first
+frame whose id is `label` (all frames if there is none): compile its defers, newest first,
+with the frame still on the stack (the frames above it have been popped), then pop it. -/
+def defersUpTo (emit : Emit) (l : Nat) : List Frame → Option Ts
+  | [] => some .nil
+  | (id, ds) :: rest =>
+    match emitDefers emit ds ((id, ds) :: rest) with
+    | none => none
+    | some t =>
+      if id = some l then some t else
+      match defersUpTo emit l rest with
+      | none => none
+      | some r => some (Ts.append t r)
+
+/-- `Stmt::Defer`: push onto the top frame (`expect("block didn't add to defer stack")`). -/
+def registerDefer (b : Stmts) : List Frame → Option (List Frame)
+  | [] => none
+  | (id, ds) :: rest => some ((id, b :: ds) :: rest)
+
+/-- the end of `Expr::Block`: `defer_stack.pop().expect("we just pushed this")`, then — only if
+the end of the block is reachable (`!no_eval`) — the exit block compiles the popped frame's
+defers under the remaining stack. Returns body code and exit code. -/
+def closeBlock (emit : Emit) : Option (Ts × List Frame × Bool) → Option (Ts × Ts)
+  | none => none
+  | some (_, [], _) => none
+  | some (tb, (_, ds) :: below, noEval) =>
+    if noEval then some (tb, .nil) else
+    match emitDefers emit ds below with
+    | none => none
+    | some ex => some (tb, ex)
+
 mutual
 /-- compile one statement under the static defer stack; returns the generated code, the new
 stack and whether compilation of the enclosing statement list stops here (`no_eval`).
-`none` = the compiler would panic. -/
-def compileStmt : Stmt → List Frame → Option (Ts × List Frame × Bool)
+`none` = the compiler would panic / not terminate. -/
+def compileStmt (emit : Emit) : Stmt → List Frame → Option (Ts × List Frame × Bool)
   | .print c, fr => some (.cons (.emit c) .nil, fr, false)
-  | .defer c, fr => (registerDefer c fr).map fun fr' => (.nil, fr', false)
+  | .defer b, fr => (registerDefer b fr).map fun fr' => (.nil, fr', false)
   | .block label body, fr =>
-    match compileStmts body ((label, []) :: fr) with
+    match closeBlock emit (compileStmts emit body ((label, []) :: fr)) with
     | none => none
-    | some (tb, fr') => some (.cons (.block label tb (topDefers fr')) .nil, fr, false)
+    | some (tb, ex) => some (.cons (.block label tb ex) .nil, fr, false)
   | .loop label body, fr =>
     -- the loop's own frame, then the body block (scope id `none`)
-    match compileStmts body ((none, []) :: (some label, []) :: fr) with
+    match closeBlock emit (compileStmts emit body ((none, []) :: (some label, []) :: fr)) with
     | none => none
-    | some (tb, fr') => some (.cons (.loop label tb (topDefers fr')) .nil, fr, false)
+    | some (tb, ex) => some (.cons (.loop label tb ex) .nil, fr, false)
   | .ifS body, fr =>
-    match compileStmts body ((none, []) :: fr) with
+    match closeBlock emit (compileStmts emit body ((none, []) :: fr)) with
     | none => none
-    | some (tb, fr') => some (.cons (.ifT tb (topDefers fr')) .nil, fr, false)
-  | .brk l, fr => some (.cons (.jump false l (defersUpTo l fr)) .nil, fr, true)
-  | .cont l, fr => some (.cons (.jump true l (defersUpTo l fr)) .nil, fr, true)
-  | .tryS l, fr => some (.cons (.tryT l (defersUpTo l fr)) .nil, fr, false)
-/-- the `for stmt in stmts` loop of `Expr::Block`: stops after a `break`/`continue` -/
-def compileStmts : Stmts → List Frame → Option (Ts × List Frame)
-  | .nil, fr => some (.nil, fr)
+    | some (tb, ex) => some (.cons (.ifT tb ex) .nil, fr, false)
+  | .brk l, fr => (defersUpTo emit l fr).map fun code => (.cons (.jump false l code) .nil, fr, true)
+  | .cont l, fr => (defersUpTo emit l fr).map fun code => (.cons (.jump true l code) .nil, fr, true)
+  | .tryS l, fr => (defersUpTo emit l fr).map fun code => (.cons (.tryT l code) .nil, fr, false)
+/-- the `for stmt in stmts` loop of `Expr::Block`: stops after a `break`/`continue`
+(third component = `no_eval`) -/
+def compileStmts (emit : Emit) : Stmts → List Frame → Option (Ts × List Frame × Bool)
+  | .nil, fr => some (.nil, fr, false)
   | .cons s rest, fr =>
-    match compileStmt s fr with
+    match compileStmt emit s fr with
     | none => none
     | some (ts, fr', stop) =>
-      if stop then some (ts, fr') else
-      match compileStmts rest fr' with
+      if stop then some (ts, fr', true) else
+      match compileStmts emit rest fr' with
       | none => none
-      | some (tr, fr'') => some (Ts.append ts tr, fr'')
+      | some (tr, fr'', stop') => some (Ts.append ts tr, fr'', stop')
 end
 
-/-- a function body: the outermost block, labelled `0` (the target of `return`) -/
+/-- `compile_expr(defer)` for `defer { body }`: an `Expr::Block` without scope id, compiled
+under the stack of the emission site; inside it deferred bodies are compiled by
+`compileDeferred n`. `compileDeferred 0` = the re-entry budget is exhausted. -/
+def compileDeferred : Nat → Emit
+  | 0, _, _ => none
+  | n + 1, b, fr =>
+    match closeBlock (compileDeferred n) (compileStmts (compileDeferred n) b ((none, []) :: fr)) with
+    | none => none
+    | some (tb, ex) => some (.cons (.block none tb ex) .nil)
+
+mutual
+/-- how deeply `defer`s are nested inside a statement -/
+def deferDepthStmt : Stmt → Nat
+  | .print _ => 0
+  | .defer b => deferDepth b + 1
+  | .block _ body => deferDepth body
+  | .loop _ body => deferDepth body
+  | .ifS body => deferDepth body
+  | .brk _ => 0
+  | .cont _ => 0
+  | .tryS _ => 0
+def deferDepth : Stmts → Nat
+  | .nil => 0
+  | .cons s rest => max (deferDepthStmt s) (deferDepth rest)
+end
+
+/-- a function body: the outermost block, labelled `0` (the target of `return`). A deferred
+body is compiled while compiling at most `deferDepth body` enclosing deferred bodies (for
+programs whose deferred bodies do not jump out of themselves, `compile_total`). -/
 def compileProgram (body : Stmts) : Option T :=
-  match compileStmts body [(some 0, [])] with
+  let emit := compileDeferred (deferDepth body)
+  match closeBlock emit (compileStmts emit body [(some 0, [])]) with
   | none => none
-  | some (tb, fr') => some (.block (some 0) tb (topDefers fr'))
+  | some (tb, ex) => some (.block (some 0) tb ex)
 
 /-! ### run-time -/
 
@@ -150,35 +231,50 @@ def iter (step : St → Option Sig × St) : Nat → St → Sig × St
     | (none, st') => iter step n st'          -- next iteration
     | (some sig, st') => (sig, st')           -- loop is left with `sig`
 
+/-- a block's merge block is the target of `break label` -/
+def catchBrk (label : Option Nat) : Sig × St → Sig × St
+  | (.brk l, st) => if label = some l then (.normal, st) else (.brk l, st)
+  | r => r
+
+/-- what a loop does with the outcome of one iteration -/
+def loopNext (label : Nat) : Sig × St → Option Sig × St
+  | (.normal, st) => (none, st)
+  | (.brk l, st) => if l = label then (some .normal, st) else (some (.brk l), st)
+  | (.cont l, st) => if l = label then (none, st) else (some (.cont l), st)
+
 mutual
 def execT (fuel : Nat) : T → St → Sig × St
   | .emit c, st => (.normal, st.emit c)
   | .block label body exitCode, st =>
     match execTs fuel body st with
-    | (.normal, st') => (.normal, st'.emits exitCode)
-    | (.brk l, st') => if label = some l then (.normal, st') else (.brk l, st')
-    | (.cont l, st') => (.cont l, st')
+    | (.normal, st') => catchBrk label (execTs fuel exitCode st')
+    | r => catchBrk label r
   | .ifT body exitCode, st =>
     match st.decide with
     | (false, st1) => (.normal, st1)
     | (true, st1) =>
       match execTs fuel body st1 with
-      | (.normal, st') => (.normal, st'.emits exitCode)
-      | (sig, st') => (sig, st')
+      | (.normal, st') => execTs fuel exitCode st'
+      | r => r
   | .loop label body exitCode, st =>
     iter (fun st =>
       match st.decide with
       | (false, st1) => (some .normal, st1)
       | (true, st1) =>
         match execTs fuel body st1 with
-        | (.normal, st') => (none, st'.emits exitCode)
-        | (.brk l, st') => if l = label then (some .normal, st') else (some (.brk l), st')
-        | (.cont l, st') => if l = label then (none, st') else (some (.cont l), st')) fuel st
-  | .jump isCont l code, st => (if isCont then .cont l else .brk l, st.emits code)
+        | (.normal, st') => loopNext label (execTs fuel exitCode st')
+        | r => loopNext label r) fuel st
+  | .jump isCont l code, st =>
+    match execTs fuel code st with
+    | (.normal, st') => (if isCont then .cont l else .brk l, st')
+    | r => r
   | .tryT l code, st =>
     match st.decide with
     | (false, st1) => (.normal, st1)
-    | (true, st1) => (.brk l, st1.emits code)
+    | (true, st1) =>
+      match execTs fuel code st1 with
+      | (.normal, st') => (.brk l, st')
+      | r => r
 def execTs (fuel : Nat) : Ts → St → Sig × St
   | .nil, st => (.normal, st)
   | .cons t rest, st =>
